@@ -6,10 +6,11 @@ _ENGINES = {
     "e2": "dsim.e2_lod",
     "e3": "dsim.e3_storage",
     "e4": "dsim.e4_jit",
+    "e12": "dsim.e12_render",
 }
 
 PROPERTY_ENGINE = {
-    "C01": "e1", "C06": "e1", "C09": "e1", "C20": "e1",
+    "C01": "e1", "C06": "e1", "C09": "e1", "C20": "e12",
     "C15": "e2", "C16": "e2", "C17": "e2",
     "C12": "e3", "C14": "e3", "C18": "e3",
     "C08": "e4",
